@@ -214,3 +214,124 @@ class _ElseAfterReturn(ast.NodeTransformer):
 
 
 TRANSFORMS.update({"return_temp": _ReturnTemp, "len_tests": _LenTests, "nest_and": _NestAnd, "else_after_return": _ElseAfterReturn})
+
+
+class _ModuleAlias(ast.NodeTransformer):
+    """package-internal modules bound under other names: `import matid.geometry` gains `import matid.geometry as mgeom` and every
+    `matid.geometry.X` is written `mgeom.X`; `from matid.data import constants` is written `... import constants as consts`"""
+    def visit_Module(self, node):
+        self.generic_visit(node)
+        out = []
+        for s in node.body:
+            out.append(s)
+            if isinstance(s, ast.Import) and any(a.name == "matid.geometry" and a.asname is None for a in s.names):
+                out.append(ast.copy_location(ast.Import(names=[ast.alias(name="matid.geometry", asname="mgeom")]), s))
+        node.body = out
+        return node
+
+    def visit_ImportFrom(self, node):
+        if node.module == "matid.data":
+            for a in node.names:
+                if a.name == "constants" and a.asname is None:
+                    a.asname = "consts"
+        return node
+
+    def visit_Attribute(self, node):
+        self.generic_visit(node)
+        if isinstance(node.value, ast.Name) and node.value.id == "matid" and node.attr == "geometry":
+            return ast.copy_location(ast.Name(id="mgeom", ctx=ast.Load()), node)
+        return node
+
+    def visit_Name(self, node):
+        if node.id == "constants" and isinstance(node.ctx, ast.Load):
+            return ast.copy_location(ast.Name(id="consts", ctx=node.ctx), node)
+        return node
+
+
+TRANSFORMS["module_alias"] = _ModuleAlias
+
+
+def _package_signatures(src):
+    """name -> parameter names (without self) for functions / methods / constructors whose name is defined exactly once in the package"""
+    defs, classes = {}, {}
+    for root, dirs, files in os.walk(src):
+        for f in files:
+            if not f.endswith(".py") or f == "symmetry_data.py":
+                continue
+            t = ast.parse(open(os.path.join(root, f)).read())
+            for node in ast.walk(t):
+                if isinstance(node, ast.ClassDef):
+                    for m in node.body:
+                        if isinstance(m, ast.FunctionDef):
+                            decos = {ast.unparse(d) for d in m.decorator_list}
+                            if decos:
+                                defs.setdefault(m.name, []).append(None)
+                                continue
+                            if m.name == "__init__":
+                                classes.setdefault(node.name, []).append(m)
+                            else:
+                                defs.setdefault(m.name, []).append((m, True))
+            for node in t.body:
+                if isinstance(node, ast.FunctionDef):
+                    defs.setdefault(node.name, []).append((node, False) if not node.decorator_list else None)
+    out = {}
+    for name, lst in list(defs.items()) + [(k, [(m, True) for m in v]) for k, v in classes.items()]:
+        if len(lst) != 1 or lst[0] is None or name in out:
+            out[name] = None
+            continue
+        fn, is_method = lst[0]
+        a = fn.args
+        if a.vararg or a.posonlyargs:
+            out[name] = None
+            continue
+        ps = [x.arg for x in a.args]
+        out[name] = ps[1:] if is_method else ps
+    return {k: v for k, v in out.items() if v is not None}
+
+
+def _foreign_names():
+    import builtins
+    names = set(dir(builtins))
+    for obj in (dict, list, set, str, tuple, float, int):
+        names |= set(dir(obj))
+    try:
+        import numpy, ase, networkx
+        names |= set(dir(numpy)) | set(dir(numpy.ndarray)) | set(dir(ase.Atoms)) | set(dir(networkx.Graph)) | set(dir(networkx)) | set(dir(numpy.linalg)) | set(dir(numpy.random.Generator))
+        import ase.cell
+        names |= set(dir(ase.cell.Cell))
+    except Exception:
+        pass
+    return names
+
+
+class _Keywordize(ast.NodeTransformer):
+    """every positional argument of a call of a package function / method / constructor is passed by keyword"""
+    sigs = {}
+
+    def visit_Call(self, node):
+        self.generic_visit(node)
+        f = node.func
+        name = f.attr if isinstance(f, ast.Attribute) else f.id if isinstance(f, ast.Name) else None
+        if isinstance(f, ast.Attribute):
+            chain = ast.unparse(f.value).split(".")
+            if "ext" in chain or chain[0] in ("ase", "np", "numpy", "spglib", "nx", "networkx", "scipy", "sklearn", "itertools", "math"):
+                return node         # the compiled extension takes positional arguments only; other libraries have their own parameter names
+        ps = self.sigs.get(name)
+        if ps is None or not node.args or any(isinstance(a, ast.Starred) for a in node.args) or len(node.args) > len(ps):
+            return node
+        if any(k.arg is None for k in node.keywords) or {k.arg for k in node.keywords} & set(ps[:len(node.args)]):
+            return node
+        node.keywords = [ast.keyword(arg=p, value=a) for p, a in zip(ps, node.args)] + node.keywords
+        node.args = []
+        return node
+
+
+TRANSFORMS["keyword_arguments"] = _Keywordize
+_transform_tree_plain = transform_tree
+
+
+def transform_tree(src, dst, kind):
+    if kind == "keyword_arguments":
+        foreign = _foreign_names()
+        _Keywordize.sigs = {k: v for k, v in _package_signatures(src).items() if k not in foreign}
+    _transform_tree_plain(src, dst, kind)
